@@ -342,6 +342,11 @@ type scriptedServer struct {
 	reqs    []recvReq
 	n       int
 	gate    chan struct{} // closed when a second request's body has been read (hedge scripts)
+	// lazy: the first request to arrive is not read before the second one has been read completely, and the second one is
+	// not answered before the first one has been read: with a body larger than the socket buffers the two uploads overlap
+	lazy      bool
+	arrivals  atomic.Int32
+	firstRead chan struct{}
 	srv     *httptest.Server
 	respond map[string][]byte
 }
@@ -359,7 +364,17 @@ func respBody(tag string) []byte {
 // script element: <status>[r<retry-after text>][b<body tag>][s(treamed)]  |  err (connection dropped)  |  slow (responds after 400ms)
 // | gate<status> (waits until another request has arrived and been read, then responds)
 func (s *scriptedServer) handler(w http.ResponseWriter, r *http.Request) {
+	arr := int(s.arrivals.Add(1)) - 1
+	if s.lazy && arr == 0 {
+		select {
+		case <-s.gate:
+		case <-time.After(5 * time.Second):
+		}
+	}
 	body, berr := io.ReadAll(r.Body)
+	if s.lazy && arr == 0 {
+		close(s.firstRead)
+	}
 	s.mu.Lock()
 	i := s.n
 	s.n++
@@ -375,10 +390,20 @@ func (s *scriptedServer) handler(w http.ResponseWriter, r *http.Request) {
 	if i < len(s.script) {
 		el = s.script[i]
 	}
-	if i == 1 && s.gate != nil {
+	if s.lazy {
+		if arr == 1 {
+			close(s.gate)
+		}
+	} else if i == 1 && s.gate != nil {
 		close(s.gate)
 	}
 	s.mu.Unlock()
+	if s.lazy && arr == 1 {
+		select {
+		case <-s.firstRead:
+		case <-time.After(5 * time.Second):
+		}
+	}
 	switch {
 	case el == "err":
 		if hj, ok := w.(http.Hijacker); ok {
@@ -472,10 +497,20 @@ func httpStack(spec string) ([]failsafe.Policy[*http.Response], string) {
 	}
 	for _, p := range strings.Split(spec, ",") {
 		switch {
-		case strings.HasPrefix(p, "rpl"):
-			ps = append(ps, failsafehttp.RetryPolicyBuilder().WithMaxRetries(int(atoi(p[3:]))).ReturnLastFailure().Build())
 		case strings.HasPrefix(p, "rp"):
-			ps = append(ps, failsafehttp.RetryPolicyBuilder().WithMaxRetries(int(atoi(p[2:]))).Build())
+			// rp<m> | rpl<m> (ReturnLastFailure), optional suffix b: an exponential backoff far below any Retry-After is configured
+			// as well (the server's Retry-After must still be waited out: the delay function takes precedence)
+			b := failsafehttp.RetryPolicyBuilder()
+			q := p[2:]
+			if strings.HasPrefix(q, "l") {
+				b.ReturnLastFailure()
+				q = q[1:]
+			}
+			if strings.HasSuffix(q, "b") {
+				b.WithBackoff(2*time.Millisecond, 20*time.Millisecond)
+				q = q[:len(q)-1]
+			}
+			ps = append(ps, b.WithMaxRetries(int(atoi(q))).Build())
 		case p == "to":
 			ps = append(ps, timeout.With[*http.Response](5*time.Second))
 		case p == "tos":
@@ -532,6 +567,9 @@ func adaptersHTTP(m map[string]string) string {
 	ss := &scriptedServer{script: script}
 	if strings.Contains(m["srv"], "gate") {
 		ss.gate = make(chan struct{})
+		if m["lazy"] == "1" {
+			ss.lazy, ss.firstRead = true, make(chan struct{})
+		}
 	}
 	ss.srv = httptest.NewServer(http.HandlerFunc(ss.handler))
 	defer ss.srv.Close()
@@ -955,6 +993,10 @@ func genAdapters(r *rand.Rand, n int, tier string, emit func(string) string) {
 		m := r.Intn(4)
 		rpk := pick(r, "rp", "rp", "rpl")
 		stack := fmt.Sprintf("%s%d", rpk, m)
+		backoff := r.Intn(4) == 0
+		if backoff {
+			stack += "b"
+		}
 		if stackInner != "" {
 			stack += "," + stackInner
 		}
@@ -976,8 +1018,8 @@ func genAdapters(r *rand.Rand, n int, tier string, emit func(string) string) {
 				el = "err"
 			}
 			if el != "err" {
-				if (el == "429" || el == "503") && r.Intn(3) == 0 {
-					if !waited && r.Intn(4) == 0 {
+				if (el == "429" || el == "503") && (r.Intn(3) == 0 || (backoff && !waited)) {
+					if !waited && (backoff || r.Intn(4) == 0) {
 						el += "r1"
 						waited = true
 					} else {
@@ -1006,8 +1048,14 @@ func genAdapters(r *rand.Rand, n int, tier string, emit func(string) string) {
 				pick(r, rctxs...), pick(r, ectxs...), 1+r.Intn(3), strings.Join(els, ";")))
 		case 1:
 			bk := pick(r, "buf", "rdr", "str", "stream", "nobody", "slowstream", "slowstream")
-			emit(fmt.Sprintf("adapters http entry=%s body=%s:%d rctx=%s ectx=%s stack=%s srv=gate200bx;200bx", pick(r, "rt", "req"), bk, pick(r, 1, 1000, 70000),
-				pick(r, rctxs...), pick(r, ectxs...), pick(r, "hps", "rp1,hps", "hps,to")))
+			if i%10 == 1 {
+				// two uploads of one buffered body that overlap in time: each attempt needs its own view of the buffer
+				emit(fmt.Sprintf("adapters http entry=%s body=%s:%d rctx=%s ectx=%s stack=%s srv=gate200bx;200bx lazy=1", pick(r, "rt", "req"), pick(r, "buf", "rdr", "str", "stream"), 16<<20,
+					pick(r, rctxs...), pick(r, ectxs...), pick(r, "hps", "hps,to")))
+			} else {
+				emit(fmt.Sprintf("adapters http entry=%s body=%s:%d rctx=%s ectx=%s stack=%s srv=gate200bx;200bx", pick(r, "rt", "req"), bk, pick(r, 1, 1000, 70000),
+					pick(r, rctxs...), pick(r, ectxs...), pick(r, "hps", "rp1,hps", "hps,to")))
+			}
 		case 2:
 			emit(fmt.Sprintf("adapters http entry=%s body=%s:%d rctx=%s ectx=%s stack=%s srv=slow;200bx cancel=1", pick(r, "rt", "req"), pick(r, "buf", "seek", "none"), pick(r, 0, 1000),
 				pick(r, "valcancel", "deadline"), pick(r, ectxs...), pick(r, "rp2", "rp1,to", "rp2,hp", "fb,rp1")))
